@@ -533,6 +533,7 @@ func entryPointCases(pr *pProbe, opts []participle.Option) {
 		}
 	}
 	mapperOrderCases(pr)
+	tagMeaningCases(pr, opts)
 	// Trace changes nothing
 	long := strings.Repeat("x", 60)
 	pi, err := participle.Build[pbIdents](opts...)
@@ -724,4 +725,61 @@ func mapperOrderCases(pr *pProbe) {
 			}
 		}
 	}
+}
+
+
+// ---- the node graph means what the tag says (C01): bracket groups combined with postfix modifiers ----
+
+type (
+	pbBraceBang struct {
+		A []string `{ @Ident }! ";"`
+	}
+	pbBraceOpt struct {
+		A []string `{ @Ident }? ";"`
+	}
+	pbBracketStar struct {
+		A []string `( [ "-" ] @Ident )* ";"`
+	}
+	pbParenPlus struct {
+		A []string `( @Ident "," )+ ";"`
+	}
+)
+
+func tagMeaningOne[G any](pr *pProbe, opts []participle.Option, desc string, get func(*G) []string, cases map[string][]string) {
+	p, err := participle.Build[G](opts...)
+	if err != nil {
+		pr.fail("%s: Build: %v", desc, err)
+		return
+	}
+	for in, want := range cases {
+		pr.Tried++
+		v, perr, ok := tryParse(pr, p, desc, in)
+		if !ok {
+			continue
+		}
+		if want == nil {
+			if perr == nil {
+				pr.fail("%s: input %q is outside the language of the tag but was accepted as %v", desc, in, get(v))
+			}
+			continue
+		}
+		if perr != nil {
+			pr.fail("%s: input %q is in the language of the tag but was rejected: %v", desc, in, perr)
+			continue
+		}
+		if got := get(v); !(len(got) == 0 && len(want) == 0) && !reflect.DeepEqual(got, want) {
+			pr.fail("%s: input %q gives %v, the tag means %v", desc, in, got, want)
+		}
+	}
+}
+
+func tagMeaningCases(pr *pProbe, opts []participle.Option) {
+	tagMeaningOne(pr, opts, "grammar { @Ident }! \";\"", func(g *pbBraceBang) []string { return g.A },
+		map[string][]string{"a b c ;": {"a", "b", "c"}, "a ;": {"a"}, ";": nil})
+	tagMeaningOne(pr, opts, "grammar { @Ident }? \";\"", func(g *pbBraceOpt) []string { return g.A },
+		map[string][]string{"a b c ;": {"a", "b", "c"}, ";": {}})
+	tagMeaningOne(pr, opts, "grammar ( [ \"-\" ] @Ident )* \";\"", func(g *pbBracketStar) []string { return g.A },
+		map[string][]string{"- a b - c ;": {"a", "b", "c"}, ";": {}, "- - a ;": nil})
+	tagMeaningOne(pr, opts, "grammar ( @Ident \",\" )+ \";\"", func(g *pbParenPlus) []string { return g.A },
+		map[string][]string{"a , b , ;": {"a", "b"}, ";": nil})
 }
